@@ -18,7 +18,7 @@ EXPLANATION = (
     "Context-receiving callee answered an error ends in a Pending return. Liveness in general and arithmetic that needs "
     "relational invariants (table classes inv / rb) are not decided beyond the stated reasons."
     " C06-a also explores HeaderPrefix::get/new with the literal table size every reachable caller passes and demands a guard (constant operands, dominating tests or interval arithmetic over the operand expression) for each site still reached, and checks the sibling agreement behind the audited `expect` of AcceptRecvStream::into_stream: every stream type for which it reads `id` is one for which poll_type answers Ready(Ok) only with `id` set.")
-RULES = "C06-a panic-site audit (A14/A1/A9 guards incl. interval arithmetic + audited table; get/new explored with the table size every reachable caller passes; sibling agreement into_stream/poll_type); C06-b Pending implies registered (A7); C06-c errors are not turned into Pending (A3); premise of the audited expects in poll_accept_recv (filter on is_some)"
+RULES = "C06-a panic-site audit (A14/A1/A9 guards incl. interval arithmetic + audited table; get/new explored with the table size every reachable caller passes; sibling agreement into_stream/poll_type); C06-b Pending implies registered (A7); C06-c errors are not turned into Pending (A3); premise of the audited expects in poll_accept_recv (filter on is_some); shared through a proxy: C07-b (FrameStream::try_recv) under C06-c"
 
 HERE = os.path.dirname(os.path.dirname(os.path.abspath(__file__)))
 ENTRY = [r'^h3::server::(connection::Connection|request::RequestResolver|request::ResolvedRequest|stream::RequestStream|builder::Builder)::[a-z_]+$',
@@ -92,7 +92,7 @@ def run(ctx):
     ctx.floor("C06-a", "panic sites enumerated", total, 280)
     ctx.ok("C06-a", "summary", "%d sites: %d guard-discharged, %d audited %s" % (total, auto, tabled, per_class))
     # a guard that disappears re-opens a site: today's guard-discharged count is a floor
-    ctx.floor("C06-a", "guard-discharged sites", auto, 28)
+    ctx.floor("C06-a", "guard-discharged sites", auto, 34)
     # the dead-under-specialisation entries rely on literal zero arguments at the only reachable callers
     for key, nargs in (("h3::qpack::block::HeaderPrefix::get", (2, 3)), ("h3::qpack::block::HeaderPrefix::new", (1, 2, 3, 4))):
         callers = [(b, t) for b, bb, t in prog.callers_of(key) if b.key in reach and b.key.startswith(("h3::qpack::decoder::decode_stateless", "h3::qpack::encoder::encode_stateless"))]
@@ -219,4 +219,9 @@ def run(ctx):
     if ctx.tier == "thorough" and "h3_quinn" in prog.crates:
         from engine import clippyx
         clippyx.run(ctx, prog)
+    # a transport error that is answered as `more to come` keeps the frame loop spinning on the same buffered bytes: the frame
+    # reader's error row (C07-b) runs under this property too
+    if not getattr(ctx, "nested", False):
+        from rules import C07 as _c07, shared as _sh
+        _c07.run(_sh.Proxy(ctx, ("C07-b",), "C06-c", only=("FrameStream::try_recv",)))
     ctx.assume("no single Huffman-coded string literal is >= 2^29 bytes; the QUIC transport never yields an empty chunk")
